@@ -6,6 +6,7 @@ import SlipVerif.Theorems.C05
 import SlipVerif.Theorems.C05Impl
 import Mathlib.Tactic.Linarith
 import Mathlib.Tactic.Ring
+import Mathlib.Data.Nat.Sqrt
 /-
   C05 — obligations over the REGENERATED translation of slip's fixnum code (Gen/NumImpl.lean, written
   by extract/numimpl.go from pkg/cl/*.go on every run). Go's int64 semantics are explicit in the
@@ -308,6 +309,157 @@ theorem gen_gcdFix_eq (fuel : Nat) (x y : Int) : NumImpl.gcdFix fuel x y = gcdLo
 theorem gen_gcd_refines_spec (fuel m n : Nat) (h : n < fuel) :
     NumImpl.gcdFix fuel (m : Int) (n : Int) = gcdAll [(m : Int), (n : Int)] := by
   rw [gen_gcdFix_eq]; exact gcdLoop_eq_spec fuel m n h
+
+/-! ## ash, lognot, isqrt, predicates, signum -/
+
+/-- the fixnum branch of `ash` returns the canonical representation of the spec's `ash` -/
+theorem gen_ash_exact (n k : Int) (hn : inRange n) (hk : inRange k) :
+    NumImpl.ashFix n k = canonInt (ash n k) := by
+  have fixOf : ∀ v : Int, inRange v → canonInt v = Rep.fix v := by
+    intro v hv; unfold canonInt; rw [if_pos ((inRange_iff_isFix v).mp hv)]
+  unfold NumImpl.ashFix ash
+  by_cases h0 : k < 0
+  · have hk0 : ¬ 0 ≤ k := by omega
+    simp only [h0, hk0, decide_true, if_true, if_false]
+    by_cases h63 : k < -63
+    · simp only [h63, decide_true, if_true]
+      have e1 : toU64 (negFix (-63)) = 63 := by decide
+      rw [e1, fixOf _ (shr_inRange n _ hn)]
+      unfold shrFix
+      congr 1
+      exact (shr_sat n (-k).toNat (by omega) hn).symm
+    · simp only [h63, decide_false, if_false, Bool.false_eq_true]
+      have e1 : toU64 (negFix k) = -k := by unfold toU64 negFix wrap64; omega
+      rw [e1, fixOf _ (shr_inRange n _ hn)]
+      rfl
+  · have hk0 : 0 ≤ k := by omega
+    simp only [h0, hk0, decide_false, if_true, if_false, Bool.false_eq_true]
+    have e1 : toU64 k = k := by unfold toU64; unfold inRange at hk; omega
+    rw [e1]
+    by_cases hc : (decide (k < 64) && shrFix (shlFix n k) k == n) = true
+    · rw [if_pos hc]
+      simp only [Bool.and_eq_true, decide_eq_true_eq, beq_iff_eq] at hc
+      obtain ⟨hk64, hrt⟩ := hc
+      unfold shrFix shlFix at hrt
+      unfold shlFix
+      generalize hK : k.toNat = K at *
+      have hK63 : K ≤ 63 := by omega
+      have hp := pow2_pos K
+      have hm := pow2_mono K 63 hK63
+      obtain ⟨j, hj⟩ := wrap64_congr (n * 2 ^ K)
+      rw [shr_eq_div] at hrt
+      have a1 := Int.ediv_mul_le (wrap64 (n * 2 ^ K)) (ne_of_gt hp)
+      have a2 := Int.lt_ediv_add_one_mul_self (wrap64 (n * 2 ^ K)) hp
+      rw [hrt] at a1 a2
+      have e2 : (n + 1) * (2 : Int) ^ K = n * 2 ^ K + 2 ^ K := by ring
+      rw [e2] at a2
+      have hw : wrap64 (n * 2 ^ K) = n * 2 ^ K := by
+        norm_num at hm
+        generalize (2 : Int) ^ K = P at *
+        generalize n * P = M at *
+        omega
+      have hr := wrap64_range (n * 2 ^ K)
+      rw [hw] at hr ⊢
+      exact (fixOf _ hr).symm
+    · rw [if_neg hc]
+
+
+theorem gen_lognot_exact (a : Int) (ha : inRange a) :
+    NumImpl.lognotFix a = canonInt (lnot a) ∧ NumImpl.lognotFix a = .fix (-a - 1) := by
+  have h : NumImpl.lognotFix a = .fix (-a - 1) := by
+    unfold NumImpl.lognotFix ofU64 notU toU64 wrap64
+    unfold inRange at ha
+    simp only []
+    congr 1; omega
+  refine ⟨?_, h⟩
+  rw [h]; unfold canonInt lnot
+  have : isFix (-a - 1) = true := by
+    apply (inRange_iff_isFix _).mp; unfold inRange at *; omega
+  rw [if_pos this]
+
+theorem gen_zerop_spec (a : Int) : NumImpl.zeropFix a = zerop (a : Rat) := by
+  unfold NumImpl.zeropFix zerop
+  by_cases h : a = 0 <;> simp [h]
+
+theorem gen_plusp_spec (a : Int) : NumImpl.pluspFix a = plusp (a : Rat) := by
+  unfold NumImpl.pluspFix plusp
+  by_cases h : 0 < a <;> simp [h]
+
+theorem gen_minusp_spec (a : Int) : NumImpl.minuspFix a = minusp (a : Rat) := by
+  unfold NumImpl.minuspFix minusp
+  by_cases h : a < 0 <;> simp [h]
+
+theorem tmod_two (a : Int) : Int.tmod a 2 = if 0 ≤ a then a % 2 else -((-a) % 2) := by
+  by_cases h : 0 ≤ a
+  · rw [if_pos h]; exact Int.tmod_eq_emod_of_nonneg h
+  · rw [if_neg h]
+    have : Int.tmod (-a) 2 = (-a) % 2 := Int.tmod_eq_emod_of_nonneg (by omega)
+    have h2 : Int.tmod a 2 = -Int.tmod (-a) 2 := by rw [Int.neg_tmod]; simp
+    rw [h2, this]
+
+theorem gen_evenp_spec (a : Int) : NumImpl.evenpFix a = decide (a % 2 = 0) := by
+  unfold NumImpl.evenpFix remFix
+  rw [tmod_two]
+  by_cases h : 0 ≤ a <;> by_cases h2 : a % 2 = 0 <;> simp [h, h2] <;> try omega
+
+theorem gen_evenp_model (a : Int) : NumImpl.evenpFix a = evenp a := by
+  rw [gen_evenp_spec]; unfold evenp
+  by_cases h : a % 2 = 0 <;> simp [h]
+
+/-- oddp on a fixnum (the remainder of Go's `%` is -1 for a negative odd operand: the test must
+    not compare it with 1) -/
+theorem gen_oddp_spec (a : Int) : NumImpl.oddpFix a = oddp a := by
+  unfold NumImpl.oddpFix remFix oddp
+  rw [tmod_two]
+  have hn : (-a) % 2 = a % 2 := by omega
+  rw [hn]
+  have hc : a % 2 = 0 ∨ a % 2 = 1 := by omega
+  by_cases h : 0 ≤ a <;> rcases hc with h2 | h2 <;> simp [h, h2]
+
+theorem gen_signum_spec (a : Int) : NumImpl.signumFix a = Int.sign a := by
+  unfold NumImpl.signumFix
+  rcases lt_trichotomy a 0 with h | h | h
+  · have : ¬ 0 < a := by omega
+    simp [h, this, Int.sign_eq_neg_one_of_neg h]
+  · subst h; simp
+  · simp [h, Int.sign_eq_one_of_pos h]
+
+theorem gen_isqrt_spec (a : Int) (ha : inRange a) :
+    (0 ≤ a → NumImpl.isqrtFix a = some (canonInt (Nat.sqrt a.toNat)) ∧ isqrt a = .ok (Nat.sqrt a.toNat : Int)) ∧
+    (a < 0 → NumImpl.isqrtFix a = none ∧ isqrt a = .error .typeErr) := by
+  constructor
+  · intro h0
+    have hn : ¬ a < 0 := by omega
+    have hle : (Nat.sqrt a.toNat : Int) ≤ a := by
+      have := Nat.sqrt_le_self a.toNat
+      omega
+    have hr : inRange (Nat.sqrt a.toNat : Int) := by unfold inRange at *; omega
+    unfold NumImpl.isqrtFix isqrt canonInt
+    simp only [hn, decide_false, if_false, Bool.false_eq_true]
+    rw [wrap64_id _ hr, if_pos ((inRange_iff_isFix _).mp hr)]
+    exact ⟨rfl, trivial⟩
+  · intro h
+    unfold NumImpl.isqrtFix isqrt
+    simp [h]
+
+/-! ## non-vacuity: the hypotheses are satisfiable and the translated code computes -/
+
+example : DivOperands 7 (-2) ∧ DivOperands (-9223372036854775807) 9223372036854775807 := by
+  unfold DivOperands inRange minFix; omega
+example : ¬ DivOperands (-9223372036854775808) (-1) := by
+  unfold DivOperands inRange minFix; omega
+example : NumImpl.floorFix 7 2 = (3, 1) ∧ NumImpl.ceilingFix 7 (-2) = (-3, 1) ∧ NumImpl.truncateFix (-7) 2 = (-3, -1) ∧
+    NumImpl.roundFix 7 2 = (4, -1) ∧ NumImpl.roundFix 5 2 = (2, 1) ∧ NumImpl.roundFix (-5) 2 = (-2, -1) := by decide
+example : NumImpl.addFixnums 9223372036854775807 1 = .big 9223372036854775808 ∧
+    NumImpl.mulFixnums (-1) (-9223372036854775808) = .big 9223372036854775808 ∧
+    NumImpl.subFixnums (-9223372036854775808) 1 = .big (-9223372036854775809) ∧
+    NumImpl.negFixnum (-9223372036854775808) = .big 9223372036854775808 := by decide
+example : NumImpl.compareFix 1 2 = -1 ∧ NumImpl.compareFix 2 2 = 0 ∧ NumImpl.compareFix 3 2 = 1 := by decide
+example : NumImpl.gcdFix 100 42 70 = 14 := by decide
+example : NumImpl.ashFix 1 62 = .fix 4611686018427387904 ∧ NumImpl.ashFix 1 63 = .big 9223372036854775808 ∧
+    NumImpl.ashFix (-1) (-70) = .fix (-1) ∧ NumImpl.ashFix (-5) (-1) = .fix (-3) := by decide
+example : NumImpl.absFix (-9223372036854775808) = .big 9223372036854775808 ∧ NumImpl.absFix (-3) = .fix 3 := by decide
+example : NumImpl.lognotFix 5 = .fix (-6) ∧ NumImpl.signumFix (-7) = -1 ∧ NumImpl.evenpFix (-4) = true := by decide
 
 end GenC05
 end SlipVerif.Num
